@@ -446,8 +446,9 @@ class ModuleHandle(object):
         else:
             # Add "from" imports that belong to submodules
             # (note: this will fail to recognize implicit relative imports)
-            imp_nodes = [n for n in ast_mod if isinstance(n, ast.ImportFrom)]
-            for imp_node in imp_nodes:
+            imp_nodes = [(i, n) for i, n in enumerate(ast_mod)
+                         if isinstance(n, ast.ImportFrom)]
+            for idx, imp_node in imp_nodes:
                 if imp_node.level == 0:
                     from_mod = DottedIdentifier(imp_node.module)
                     if not from_mod.startswith(self.name):
@@ -461,8 +462,15 @@ class ModuleHandle(object):
                         from_mod += imp_node.module
                 else:
                     continue
+                # A name that a later top-level 'del' removes is not there to
+                # import.
+                deleted_later = set(
+                    name for d in ast_mod[idx+1:] if isinstance(d, ast.Delete)
+                    for t in d.targets for name in self._target_names(t))
                 for n in imp_node.names:
                     m  = n.asname or n.name
+                    if m in deleted_later:
+                        continue
                     # A name imported from a submodule is re-exported under
                     # its alias, unless the imported thing (``n.name``, not
                     # the alias) is itself a submodule.
